@@ -151,9 +151,46 @@ impl FileSystem for OsFileSystem {
         #[cfg(raindb_verif)]
         parking_lot::verif_rt::harness_switch("fs.lock.opened");
         file.try_lock_exclusive()?;
+        ensure_lock_file_was_not_replaced(&file, path)?;
 
         Ok(FileLock::new(Box::new(file)))
     }
+}
+
+/**
+Check that `path` still names the file that was just locked.
+
+The lock is on the open file, not on the path. Whoever destroys a database unlinks the lock file
+while holding the lock, so a file that was opened just before that and locked just after it is an
+orphan: its lock excludes nobody because the next caller creates and locks a new file at the same
+path.
+*/
+#[cfg(unix)]
+fn ensure_lock_file_was_not_replaced(locked_file: &File, path: &Path) -> io::Result<()> {
+    use std::os::unix::fs::MetadataExt;
+
+    let locked_file_metadata = locked_file.metadata()?;
+    let is_same_file = match fs::metadata(path) {
+        Ok(path_metadata) => {
+            path_metadata.dev() == locked_file_metadata.dev()
+                && path_metadata.ino() == locked_file_metadata.ino()
+        }
+        Err(_) => false,
+    };
+    if !is_same_file {
+        return Err(io::Error::new(
+            io::ErrorKind::Other,
+            "The lock file was removed or replaced while it was being locked.",
+        ));
+    }
+
+    Ok(())
+}
+
+/// There is no portable way to identify the file behind a path on other platforms.
+#[cfg(not(unix))]
+fn ensure_lock_file_was_not_replaced(_locked_file: &File, _path: &Path) -> io::Result<()> {
+    Ok(())
 }
 
 /**
@@ -317,6 +354,7 @@ impl FileSystem for TmpFileSystem {
         #[cfg(raindb_verif)]
         parking_lot::verif_rt::harness_switch("fs.lock.opened");
         file.try_lock_exclusive()?;
+        ensure_lock_file_was_not_replaced(&file, &self.get_rooted_path(path))?;
 
         Ok(FileLock::new(Box::new(file)))
     }
